@@ -526,6 +526,12 @@ class World(WorldBase):
                                 f"file {p} written by the call differs from the clean-room replica's "
                                 f"({after.get(p, 'absent')} vs {d}); args={self.brief(op)}")
         extra = sorted(p for p in delta if p not in rep["files"])
+        gone = [p for p in extra if delta[p] == "absent" and p not in self.files]
+        if gone:
+            # a file nobody acknowledged (the scratch file an earlier, cancelled call left behind)
+            # was removed: nothing the property speaks about
+            ctx.probe("unacknowledged_leftover_removed", len(gone))
+            extra = [p for p in extra if p not in gone]
         if extra:
             raise Violation(f"C18/I2-other-file-changed:{tag}",
                             f"the call changed {extra}, which the same call in the clean room does not touch; args={self.brief(op)}")
